@@ -826,53 +826,107 @@ class Tie:
             if pool and rng.random() < 0.5:
                 junk = pool[0]["arch"][:pool[0]["arch"].__len__() - len(seek_table_bytes_py(pool[0]["cf"], pool[0]["log"]))]
             variants.append(dict(s=None, arch=junk + seek_table_bytes_py(cf, lg), cls="J", note="valid-syntax table %s over unrelated bytes" % (lg[:3],), log=lg, cf=cf))
-        # run: one process per variant group so that a sanitizer abort is attributed
-        groups = [variants[i:i + 12] for i in range(0, len(variants), 12)]
+        # run: small groups per process so that a sanitizer abort / hang is attributed; the rest of a group is re-run
         vid = 0
-        for g in groups:
-            ctext, mtext = [], []
-            for v in g:
-                v["id"] = "k%d" % vid
-                vid += 1
-                v["apath"] = self.blob(v["arch"], "cor")
-                s = v["s"]
-                mode = rng.choice(["mem", "mem", "file", "cb"])
-                v["mode"] = mode
-                ctext += ["# case %s" % v["id"]]
-                if s is not None:
-                    ctext.append("content_file %s" % s["xpath"])
-                ctext += ["archive_file %s" % v["apath"], "open %s %s" % (mode, self.path(v["id"] + ".f") if mode == "file" else ""), "table", "entries"]
-                rds = []
-                if s is not None:
-                    n = len(s["x"])
-                    _, D = cum(s["log"])
-                    rds.append(("r", 0, n))
-                    for _ in range(5):
-                        o = rng.choice(D + [rng.randint(0, n)])
-                        o = min(o, n)
-                        rds.append(("r", o, rng.choice([0, 1, n - o, rng.randint(0, n - o)])))
-                    for i in range(min(len(s["log"]) + 1, 6)):
-                        rds.append(("rf", i, max(d for (_c, d, _k) in s["log"]) if s["log"] else 1))
-                else:
-                    tot = sum(d for (_c, d, _k) in v["log"])
-                    rds += [("r", 0, min(tot, 70000)), ("r", rng.randint(0, min(tot, 1 << 20)), 100), ("rf", 0, 70000), ("rf", max(len(v["log"]) - 1, 0), 10)]
-                v["reads"] = rds
-                ctext += ["%s %d %d" % r for r in rds] + ["close"]
-                mtext += ["# case %s" % v["id"], "loadfile %s" % v["apath"]]
-            rc, clines, cerr = self.run_c("\n".join(ctext) + "\n", exe=exe, timeout=300, linebuf=True)
-            cs = self.sections(clines)
-            if rc != 0:
-                last = [l for l in clines if l.startswith("# case ")]
-                vlast = next((v for v in g if last and v["id"] == last[-1].split()[2]), g[0])
-                done = cs.get(vlast["id"], [])
-                self.report(self.corrupt_replay(vlast, extra=dict(rc=rc, stderr=cerr[-3000:], completed_lines=done[-4:])),
-                            "sanitizer report / crash / hang (rc=%d) on a corrupted archive (%s): %s" % (
-                                rc, vlast["note"], (cerr.strip().split("\n") or ["?"])[0][:300]))
-                continue
-            mlines = self.run_m("\n".join(mtext) + "\n")
-            ms = self.sections(mlines)
-            for v in g:
-                self.compare_corrupt(v, cs.get(v["id"], []), ms.get(v["id"], []))
+        for v in variants:
+            v["id"] = "k%d" % vid
+            vid += 1
+            v["apath"] = self.blob(v["arch"], "cor")
+            s = v["s"]
+            v["mode"] = rng.choice(["mem", "mem", "file", "cb"])
+            rds = []
+            if s is not None:
+                n = len(s["x"])
+                _, D = cum(s["log"])
+                rds.append(("r", 0, n))
+                for _ in range(5):
+                    o = rng.choice(D + [rng.randint(0, n)])
+                    o = min(o, n)
+                    rds.append(("r", o, rng.choice([0, 1, n - o, rng.randint(0, n - o)])))
+                for i in range(min(len(s["log"]) + 1, 6)):
+                    rds.append(("rf", i, max(d for (_c, d, _k) in s["log"]) if s["log"] else 1))
+            else:
+                tot = sum(d for (_c, d, _k) in v["log"])
+                rds += [("r", 0, min(tot, 70000)), ("r", rng.randint(0, min(tot, 1 << 20)), 100), ("rf", 0, 70000), ("rf", max(len(v["log"]) - 1, 0), 10)]
+            v["reads"] = rds
+        todo = list(variants)
+        while todo:
+            g, todo = todo[:12], todo[12:]
+            bad = self.run_corrupt_group(g, exe)
+            if bad is not None:
+                todo = g[g.index(bad) + 1:] + todo
+
+    def corrupt_ctext(self, v):
+        s = v["s"]
+        ctext = ["# case %s" % v["id"]]
+        if s is not None:
+            ctext.append("content_file %s" % s["xpath"])
+        ctext += ["archive_file %s" % v["apath"], "open %s %s" % (v["mode"], self.path(v["id"] + ".f") if v["mode"] == "file" else ""), "table", "entries"]
+        ctext += ["%s %d %d" % r for r in v["reads"]] + ["close"]
+        return ctext
+
+    def run_corrupt_group(self, g, exe, timeout=25):
+        """returns the variant on which the process died / hung (after reporting it), or None"""
+        ctext, mtext = [], []
+        for v in g:
+            ctext += self.corrupt_ctext(v)
+            mtext += ["# case %s" % v["id"], "loadfile %s" % v["apath"]]
+        rc, clines, cerr = self.run_c("\n".join(ctext) + "\n", exe=exe, timeout=timeout, linebuf=True)
+        cs = self.sections(clines)
+        bad = None
+        if rc != 0:
+            last = [l for l in clines if l.startswith("# case ")]
+            bad = next((v for v in g if last and v["id"] == last[-1].split()[2]), g[0])
+            done = cs.get(bad["id"], [])
+            opl = [l for l in done if l.startswith("open ")]
+            key = None
+            if rc == 124 and opl and " ret=0 " in opl[0] + " " and " cf=0" in opl[0] and bad["mode"] in ("file", "cb"):
+                key = "livelock-short-frame"       # see docs/C20.md, Findings
+            first = next((l for l in cerr.split("\n") if "ERROR" in l or "runtime error" in l or "Assertion" in l), (cerr.strip().split("\n") or ["?"])[0])
+            self.report(self.corrupt_replay(bad, extra=dict(rc=rc, stderr=cerr[-3000:], completed_lines=done[-4:])),
+                        "%s on a corrupted archive (%s, %s access); last completed: %s | %s" % (
+                            "HANG (no return within %ds)" % timeout if rc == 124 else "sanitizer report / crash (rc=%d)" % rc,
+                            bad["note"], bad["mode"], (done[-1][:120] if done else "-"), first[:300]), key=key)
+        mlines = self.run_m("\n".join(mtext) + "\n")
+        ms = self.sections(mlines)
+        for v in g:
+            if v is bad:
+                break
+            self.compare_corrupt(v, cs.get(v["id"], []), ms.get(v["id"], []))
+        return bad
+
+    def phase_finding_livelock(self):
+        """Directed repro of finding 'livelock-short-frame' (docs/C20.md): a seek-table entry that claims more decompressed
+        bytes than its frame regenerates, checksums off, FILE*/callback access: ZSTD_seekable_decompress never returns.
+        Run on every check so that the verdict does not depend on what the random corruptions happen to hit."""
+        x = bytes(range(16))
+        xp = self.blob(x, "x")
+        ap = self.path("livelock.zst")
+        rc, cl, cerr = self.run_c("content_file %s\ncinit 3 0 1000\nfinish 1000 1000\nlog\nsave %s\n" % (xp, ap))
+        if rc != 0 or not os.path.exists(ap):
+            return
+        arch = bytearray(open(ap, "rb").read())
+        tstart = len(arch) - (17 + 8)
+        if arch[tstart:tstart + 4] != struct.pack("<I", 0x184D2A5E):
+            return
+        arch[tstart + 12:tstart + 16] = struct.pack("<I", 32)          # dSize 16 -> 32
+        for mode in ("file", "cb"):
+            v = dict(s=None, arch=bytes(arch), cls="T", note="entry 0 decompressed size 16 -> 32 (frame regenerates 16 bytes), no checksums",
+                     log=[], cf=0, id="lv_" + mode, mode=mode, reads=[("r", 0, 32)])
+            v["apath"] = self.blob(v["arch"], "cor")
+            rc, cl, cerr = self.run_c("\n".join(self.corrupt_ctext(v)) + "\n", timeout=6, linebuf=True)
+            lines = [l for l in cl if l.strip()]
+            if rc == 124:
+                self.report(self.corrupt_replay(v, extra=dict(rc=rc, completed_lines=lines[-3:])),
+                            "ZSTD_seekable_decompress(offset 0, len 32) does not return (%s access): the frame completes after 16 of the 32 bytes its "
+                            "seek-table entry claims, checksums are off, and the reader restarts the same frame forever" % mode, key="livelock-short-frame")
+            elif rc != 0:
+                self.report(self.corrupt_replay(v, extra=dict(rc=rc, stderr=cerr[-2000:])), "crash (rc=%d) on the short-frame archive" % rc)
+            else:
+                rl = [l for l in lines if l.startswith("r ")]
+                if rl and not kv(rl[0])[2]["ret"].startswith("E"):
+                    self.report(self.corrupt_replay(v, extra=dict(observed=rl[0][:300])), "short-frame archive: 32 bytes reported as read from a 16-byte frame")
+            self.ctx.count(("finding-livelock", mode, rc))
 
     def corrupt_replay(self, v, extra=None):
         s = v["s"]
@@ -998,6 +1052,7 @@ def run(ctx):
     t.phase_rawtable()
     t.phase_archives()
     t.phase_corrupt()
+    t.phase_finding_livelock()
     ctx.proof_verdict(t.search)
     ctx.notes["input_distribution"] = t.hist
     ctx.cov["rule"] = (
